@@ -177,8 +177,13 @@ pub fn world_sexp(ctx: &mut Ctx, w: &World, max_redirects: usize, lock: &[(Modul
       remote.push(i.to_string());
     }
   }
+  let reload: Vec<String> = w
+    .reload_redirect
+    .iter()
+    .map(|(i, t)| format!("({} (r {}))", ctx.spec(&w.specs[*i]), ctx.spec(&w.specs[*t])))
+    .collect();
   format!(
-    "(world (resp {}) (content {}) (wasm {}) (node {}) {} (lock {}) (hashes {}) {} (remote {}))",
+    "(world (resp {}) (content {}) (wasm {}) (node {}) {} (lock {}) (hashes {}) {} (remote {}) (reload {}))",
     resp.join(" "),
     content.join(" "),
     wasm.join(" "),
@@ -187,7 +192,8 @@ pub fn world_sexp(ctx: &mut Ctx, w: &World, max_redirects: usize, lock: &[(Modul
     locks.join(" "),
     hashes.join(" "),
     w.has_locker as u8,
-    remote.join(" ")
+    remote.join(" "),
+    reload.join(" ")
   )
 }
 
